@@ -13,15 +13,28 @@ RULE = ("case = (generated 2D plotfile spec (rectangular domains down to one blo
         "numpy.empty is pre-filled with NaN so a never-written pixel is visible; non-trivial = >=2 levels or >=2 mesh/layout features")
 
 
-def run_case(ctx, rep, spec, fields, limit, serial, model, start=None, path=None, truth=None, cli=False):
+def run_case(ctx, rep, spec, fields, limit, serial, model, start=None, path=None, truth=None, cli=False, previous=None):
     from amr_kitchen.mandoline.mandoline import Mandoline
     if path is None:
         path = ctx.newdir("c08_")
+        if previous is not None:
+            # another plotfile on the same mesh lived at this very path and was flattened in this process before
+            import shutil
+            plotgen.materialize(previous, path)
+            for ser in (True, False):
+                try:
+                    with alarm(120), quiet(), pools.controlled():
+                        Mandoline(path, fields=fields, limit_level=limit, serial=ser, verbose=0).slice(fformat="return")
+                except BaseException as e:
+                    if isinstance(e, KeyboardInterrupt): raise
+            shutil.rmtree(path)
         truth = plotgen.materialize(spec, path)
     names = dedup_names(spec["fields"])
     nlev = len(spec["levels"])
     L = nlev - 1 if limit is None else limit
     case = {"spec": spec, "fields": fields, "limit": limit, "serial": serial, "cli": cli}
+    if previous is not None:
+        case["previous"] = previous; rep.count("path-rewritten-with-other-data-then-flattened-again")
     if cli: rep.count("console-script")
     feats = plotgen.describe(spec)
     rep.case({"s": spec, "f": fields, "l": limit, "ser": serial, "cli": cli}, nontrivial=(nlev >= 2 or len(feats) >= 2))
@@ -132,6 +145,13 @@ def run(ctx, rep, model=True):
             serial = (i + j) % 2 == 0
             run_case(ctx, rep, spec, f, limit, serial, model, start=[None, pools.order_reversed, pools.order_rot(1)][j % 3],
                      path=path, truth=truth, cli=(limit == 0 and nlev >= 2 and j % 2 == 0) or (i + j) % 9 == 4)
+        if i % 3 == 0 and i % 7 != 2:
+            # the plotfile is rewritten at the same path (same mesh and layout, other values) and flattened again
+            import copy, shutil
+            spec2 = copy.deepcopy(spec); spec2["data"] = dict(spec["data"], mode="smallint", seed=spec["data"].get("seed", 0) + 101)
+            shutil.rmtree(path); truth2 = plotgen.materialize(spec2, path)
+            run_case(ctx, rep, spec2, list(names), None, True, model, path=path, truth=truth2, previous=spec)
+            run_case(ctx, rep, spec2, [names[-1], "grid_level"], None, False, model, path=path, truth=truth2, previous=spec)
         if len(rep.violations) >= 10:
             return
     spec = big_box_spec(ctx.rng)
@@ -150,4 +170,4 @@ def big_box_spec(rng):
 
 def replay(ctx, rep, obj, model=True):
     c = obj["case"]
-    run_case(ctx, rep, c["spec"], c["fields"], c["limit"], c["serial"], model, cli=c.get("cli", False))
+    run_case(ctx, rep, c["spec"], c["fields"], c["limit"], c["serial"], model, cli=c.get("cli", False), previous=c.get("previous"))
